@@ -1229,8 +1229,10 @@ func (c *Client) RemoteUpdate(
 		return nil
 	}
 
-	// execute or fallback
-	c.clockUpdate(update, false)
+	// execute or fallback to a full sync (forked, we're in the read loop)
+	if !c.clockUpdate(update, false) {
+		go c.Sync()
+	}
 
 	return nil
 }
@@ -1246,9 +1248,10 @@ func (c *Client) RemoteUpdateMutations(
 		return nil
 	}
 
-	// execute or fallback
+	// execute or fallback to a full sync (forked, we're in the read loop and
+	// a call could be in progress)
 	if !c.clockUpdateMutations(updates) {
-		c.Sync()
+		go c.Sync()
 	}
 
 	return nil
